@@ -111,7 +111,8 @@ def order_task(desc):
                         continue
                     if got != w:
                         viol.append(("bytes-lost-behind-compressor", "policy %s, failing member %s: %s of %s (ran to completion) holds %r, it wrote %r" % (policy, fail, f, t, got[:60], w[:60])))
-            return {"evaluations": 1, "hits": len(c.hits),
+            return {"evaluations": 1, "hits": len(c.hits), "doc": doc, "exit": p.code,
+                    "started": sorted(os.path.relpath(ch.cwd, r.dir) for ch in c.children),
                     "violations": [{"sig": sig, "detail": d, "rank": 20_000_000_000 + n, "case": {"c08_order": desc}} for sig, d in viol]}
         finally:
             c.close()
